@@ -67,6 +67,8 @@ pub fn alphabet(name: &str) -> Vec<f64> {
         "q07huge" => vec![-1.7e308, -1.2e308, 0.5, 1e308, 1.5e308],
         // subnormal and barely normal observations (halving them is inexact)
         "qden" => vec![5e-324, 1.5e-323, -2.5e-323, 0., f64::from_bits(f64::MIN_POSITIVE.to_bits() + 1)],
+        // zero as the running extreme / mean
+        "zero3" => vec![0., -1., 2.],
         "const1" => vec![2.5],
         "weights" => vec![0., 1e-6, 0.5, 1., 3., 1e6],
         _ => panic!("unknown alphabet {name}"),
